@@ -22,6 +22,16 @@ string (kind `task_site_str`), and the PRINTED form of every member (`str(m)`, `
 `printed`).  Models: `setTaskLists`, `setTaskDict`, `frameIds`, `checkTask` in `PEval.Model.Enums`.
 Kind `hashable`: members as dict / set keys (EvaluationTask -- the fixed finding behind set_task_dict -- and FrameID judged:
 hashable, usable as key, `{member: 1}[member.value]` works because `__eq__` answers for strings; the other enums recorded only).
+
+VALUE LEVEL (audit round 1, item 6).  The string-level model represents a member by its name, so it cannot tell a parser that
+returns the member from one that returns the member's NAME STRING (defect F12).  The canonical form of every returned object now
+carries its KIND (`_ret`: member of which enum class -- and `is` that class's member of that name -- / str / None / other), the Lean
+model has a value type with the same three kinds (`PEval.Enums.PyRet`) and the driver answers in the same form (ops `parse_v`,
+`shape_init`, `transform_key_v`, `frame_from_task`, `task_list_v`, `task_dict_v`): the correspondence itself distinguishes member
+from string.  New kinds: `shape_init` (every shape type x {value, member, upper, non-member} x footprint {none, polygon, empty
+polygon}: what `Shape.type` HOLDS), `from_task` (`FrameID.from_task` for every task x {value spellings, member}).
+`model_selftest()` (not part of the check; `python -m`-free helper used by the builder) drives the F12 / C20_G / C20_B / C20_J
+variants of the model and shows that the comparison rejects each of them.
 """
 from __future__ import annotations
 
@@ -39,7 +49,10 @@ RULE = (
     "(definition order, reversed, seeded shuffles), repetitions, the empty input, seeded mixtures of member values / near misses / "
     "random strings; the config constructors on every task string x {supported, unsupported, spellings} x frame_id as one string / "
     "a sequence (every member, upper case, a non-frame at a seeded position, empty) x policy strings; the printed form "
-    "(str / format / %s) of every member of every enum through its parser"
+    "(str / format / %s) of every member of every enum through its parser; "
+    "value level: every parse case is compared a second time on the KIND of the returned object (member of which class / str / None); "
+    "Shape on every shape type x {value, member, upper-case, non-member string} x footprint {none, polygon, empty polygon}; "
+    "FrameID.from_task on every task x {value, its spellings, the member}; TransformKey fields by kind"
 )
 THEOREMS = [
     "PEval.C20." + t
@@ -58,6 +71,28 @@ THEOREMS = [
         "setTaskLists_sound", "setTaskLists_append", "setTaskLists_nonmember_dropped", "setTaskDict_keys",
         "roundtrip_setTaskDict", "setTaskDict_keys_nodup", "roundtrip_frameIds_one", "roundtrip_frameIds_many",
         "nonmember_frameIds", "nonmember_frameIds_one", "roundtrip_checkTask", "nonmember_checkTask",
+        # audit round 1, item 6 -- the regenerated tables are present (an empty table breaks a proof instead of making the
+        # `forall p in Gen.x` theorems vacuous)
+        "evaluationTask_nonempty", "frameID_nonempty", "visibility_nonempty", "sensorModality_nonempty", "shapeType_nonempty",
+        "matchingLabelPolicy_nonempty", "visibilityAlias_nonempty", "taskIs3d_nonempty", "taskIs3d_names", "taskIs3d_both",
+        "names_nodup",
+        # value level: projection onto the string-level model
+        "firstMemberV_eq", "firstKey_F12_eq", "taskFromValueV_eq", "setTaskV_eq", "frameFromValueV_eq", "visibilityFromValueV_eq",
+        "sensorFromValueV_eq", "shapeTypeFromValueV_eq", "policyFromStrV_eq", "F12_same_erasure",
+        # value level: the member itself comes back / nothing but a member of the parser's enum ever comes back
+        "roundtripV_task", "roundtripV_setTask", "roundtripV_frame", "roundtripV_visibility", "roundtripV_sensor",
+        "roundtripV_shapeType", "roundtripV_policy", "visibilityV_alias", "visibilityV_fallback", "visibilityV_total",
+        "taskV_sound", "setTaskV_sound", "frameV_sound", "sensorV_sound", "shapeTypeV_sound", "policyV_sound",
+        # Shape / TransformKey / FrameID.from_task for both spellings
+        "shapeV_str_eq_enum", "shapeV_stored_member", "shapeV_no_footprint", "shapeV_sound", "shapeV_nonmember", "shapeInitV_eq",
+        "frameArgV_spellings", "transformKeyV_spellings", "transformKeyV_sound", "transformKeyV_eq",
+        "fromTask_str_eq_enum", "fromTask_sound", "fromTask_2d_rejected", "fromTask_nonmember", "fromTask_names_present",
+        "fromTask_documented",
+        # the multi-string sites at value level
+        "membersNamedV_eq", "setTaskListsV_eq", "setTaskDictV_eq", "frameIdsV_eq", "checkTaskV_eq", "roundtripV_setTaskLists",
+        "setTaskListsV_sound", "roundtripV_setTaskDict", "roundtripV_frameIds", "roundtripV_frameIds_one", "roundtripV_checkTask",
+        "matchingMode_nonempty", "taskIsFpValidation_nonempty", "frameV_case_irrelevant", "policyV_case_irrelevant",
+        "roundtripV_frame_anycase",
     ]
 ]
 TRUSTED = [
@@ -397,6 +432,12 @@ def corpus():
     cs.append({"kind": "config_site", "cls": "perception", "task": "detection", "frame_id": "BASE_LINK", "policy": None})
     cs.append({"kind": "config_site", "cls": "sensing", "task": "sensing", "frame_id": "base_link", "policy": None})
     cs.append({"kind": "printed", "parser": "frame", "member": "CAM_TRAFFIC_LIGHT", "how": "str"})
+    # value level: F12 (Shape('bounding_box', size) raised; .type was the name string), seed C20_G (string + explicit footprint)
+    cs.append({"kind": "shape_init", "member": "BOUNDING_BOX", "spelling": "str", "footprint": "none"})
+    cs.append({"kind": "shape_init", "member": "POLYGON", "spelling": "str", "footprint": "polygon"})
+    cs.append({"kind": "shape_init", "member": "POLYGON", "spelling": "bad", "footprint": "polygon"})
+    cs.append({"kind": "from_task", "task": "TRACKING", "spelling": "str"})
+    cs.append({"kind": "from_task", "task": "DETECTION2D", "spelling": "member"})
     return cs
 
 
@@ -450,15 +491,111 @@ def generate(rng, tier):
                 cases.append({"kind": "task_site", "site": "label_converter", "task": t, "prefix": prefix, "merge": merge})
         cases.append({"kind": "task_site", "site": "frame_from_task", "task": t})
     cases += _multi_cases(rng, tier)
+    cases += _value_cases()
     return cases
+
+
+SHAPE_SPELLINGS = ("str", "member", "upper", "title", "name", "bad")
+FOOTPRINTS = ("none", "polygon", "empty")
+FROM_TASK_SPELLINGS = ("str", "member", "upper", "title", "name", "space", "cut")
+
+
+def _value_cases():
+    """what the string-or-enum objects HOLD / return, by kind of value (exhaustive over members x spellings)"""
+    from perception_eval.common.evaluation_task import EvaluationTask
+    from perception_eval.common.shape import ShapeType
+
+    cases = []
+    for m in ShapeType.__members__:
+        for sp in SHAPE_SPELLINGS:
+            for fp in FOOTPRINTS:
+                cases.append({"kind": "shape_init", "member": m, "spelling": sp, "footprint": fp})
+    for t in EvaluationTask.__members__:
+        for sp in FROM_TASK_SPELLINGS:
+            cases.append({"kind": "from_task", "task": t, "spelling": sp})
+    return cases
+
+
+def _spelled(member, spelling):
+    """the argument for a string-or-enum parameter: the member, its value, or a string near the value"""
+    v = member.value
+    return {"member": member, "str": v, "upper": v.upper(), "title": v.title(), "name": member.name, "space": v + " ",
+            "cut": v[:-1], "bad": v + "_x"}[spelling]
+
+
+def _ret(r, cls=None):
+    """canonical form of a returned / stored object BY KIND: a member (of which enum class; it must be that class's own member
+    object of that name, and of `cls` when the class is prescribed), a str, None, anything else"""
+    from enum import Enum
+
+    if isinstance(r, Enum):
+        own = type(r).__members__.get(r.name) is r and (cls is None or type(r) is cls)
+        return {"kind": "member", "enum": type(r).__name__, "name": r.name} if own else {"kind": "other", "repr": repr(r)}
+    if isinstance(r, str):
+        return {"kind": "str", "s": str(r)}
+    if r is None:
+        return {"kind": "none"}
+    return {"kind": "other", "repr": repr(r)}
+
+
+def _arg_json(a):
+    """the same argument for the model"""
+    r = _ret(a)
+    return {"str": r["s"]} if r["kind"] == "str" else {"member": r["name"], "enum": r["enum"]} if r["kind"] == "member" else {"none": True}
+
+
+def _ret_cmp(got, want, what):
+    """got: `_ret` of the real object or {'err': kind}; want: the driver's answer in the same form"""
+    g = {k: v for k, v in (got or {}).items() if k in ("kind", "enum", "name", "s", "err")}
+    w = {k: v for k, v in (want or {}).items() if k in ("kind", "enum", "name", "s", "err")}
+    return None if g == w else f"{what}: impl {got} != model {w}"
 
 
 def _canon(cls, r):
     if isinstance(r, cls):
-        return {"member": r.name}
+        return {"member": r.name, "ret": _ret(r, cls)}
     if r is None:
-        return {"none": True}
-    return {"other": repr(r)}
+        return {"none": True, "ret": _ret(r)}
+    return {"other": repr(r), "ret": _ret(r)}
+
+
+def _footprint(which):
+    from shapely.geometry import Polygon
+
+    return None if which == "none" else Polygon() if which == "empty" else Polygon([(1, 1), (-1, 1), (-1, -1), (1, -1)])
+
+
+def _run_shape_init(case):
+    from perception_eval.common.shape import Shape, ShapeType
+
+    m = ShapeType[case["member"]]
+
+    def build(arg):
+        try:
+            s = Shape(arg, (2.0, 4.0, 1.5), _footprint(case["footprint"]))
+        except Exception as e:  # noqa
+            return {"err": type(e).__name__}
+        fp = s.footprint
+        return {"type": _ret(s.type), "size": list(s.size), "footprint": None if fp is None else [list(map(float, c)) for c in fp.exterior.coords]}
+
+    got, ref = build(_spelled(m, case["spelling"])), build(m)
+    return {"got": got, "ref": ref, "same": got == ref, "arg": _arg_json(_spelled(m, case["spelling"]))}
+
+
+def _run_from_task(case):
+    from perception_eval.common.evaluation_task import EvaluationTask
+    from perception_eval.common.schema import FrameID
+
+    t = EvaluationTask[case["task"]]
+
+    def call(arg):
+        try:
+            return _ret(FrameID.from_task(arg), FrameID)
+        except Exception as e:  # noqa
+            return {"err": type(e).__name__}
+
+    got, ref = call(_spelled(t, case["spelling"])), call(t)
+    return {"got": got, "ref": ref, "same": got == ref, "arg": _arg_json(_spelled(t, case["spelling"]))}
 
 
 def _arg(member, spelling, side=0):
@@ -502,9 +639,14 @@ def run_impl(case):
             h = HomogeneousMatrix((1.0, 2.0, 3.0), (1.0, 0.0, 0.0, 0.0), _arg(a, case["spelling"], 0), _arg(b, case["spelling"], 1))
             ok = k1 == k2 and hash(k1) == hash(k2) and k1.src is a and k1.dst is b and h.src is a and h.dst is b
             return {"src": k1.src.name if isinstance(k1.src, FrameID) else None,
-                    "dst": k1.dst.name if isinstance(k1.dst, FrameID) else None, "same": bool(ok)}
+                    "dst": k1.dst.name if isinstance(k1.dst, FrameID) else None, "same": bool(ok),
+                    "src_ret": _ret(k1.src), "dst_ret": _ret(k1.dst), "h_src_ret": _ret(h.src), "h_dst_ret": _ret(h.dst)}
         if k == "key_site":
             return _run_key_site(case)
+        if k == "shape_init":
+            return _run_shape_init(case)
+        if k == "from_task":
+            return _run_from_task(case)
         if k == "task_site":
             from perception_eval.common.evaluation_task import EvaluationTask
             from perception_eval.common.label import LabelConverter
@@ -528,7 +670,7 @@ def run_impl(case):
             items = list(case["items"])
             r = set_task_lists(items)
             return {"members": [m.name if isinstance(m, EvaluationTask) else repr(m) for m in r], "is_list": isinstance(r, list),
-                    "input_kept": items == case["items"]}
+                    "input_kept": items == case["items"], "rets": [_ret(m) for m in r]}
         if k == "task_dict":
             from perception_eval.common.evaluation_task import EvaluationTask, set_task_dict
 
@@ -537,7 +679,8 @@ def run_impl(case):
             r = set_task_dict(d)
             idx = {id(p): i for i, p in enumerate(payload)}
             return {"items": [[m.name if isinstance(m, EvaluationTask) else repr(m), idx.get(id(v))] for m, v in r.items()],
-                    "is_dict": isinstance(r, dict), "input_kept": list(d) == list(case["keys"])}
+                    "is_dict": isinstance(r, dict), "input_kept": list(d) == list(case["keys"]),
+                    "rets": [[_ret(m), idx.get(id(v))] for m, v in r.items()]}
         if k == "printed":
             cls, fn = _enums()[case["parser"]]
             m = cls.__members__[case["member"]]
@@ -570,13 +713,18 @@ def model_requests(case, out):
     if k == "task_site":
         return []
     if k == "parse":
-        return [{"op": "parse", "parser": case["parser"], "s": case["s"]}]
+        return [{"op": "parse", "parser": case["parser"], "s": case["s"]}, {"op": "parse_v", "parser": case["parser"], "s": case["s"]}]
     if k == "task_list":
-        return [{"op": "task_list", "items": case["items"]}]
+        return [{"op": "task_list", "items": case["items"]}, {"op": "task_list_v", "items": case["items"]}]
     if k == "task_dict":
-        return [{"op": "task_dict", "keys": case["keys"]}]
+        return [{"op": "task_dict", "keys": case["keys"]}, {"op": "task_dict_v", "keys": case["keys"]}]
     if k == "printed":
-        return [{"op": "parse", "parser": case["parser"], "s": out["text"]}] if "text" in out else []
+        return [{"op": "parse", "parser": case["parser"], "s": out["text"]},
+                {"op": "parse_v", "parser": case["parser"], "s": out["text"]}] if "text" in out else []
+    if k == "shape_init":
+        return [{"op": "shape_init", "arg": out["arg"], "footprint": case["footprint"] == "polygon"}] if "arg" in out else []
+    if k == "from_task":
+        return [{"op": "frame_from_task", "arg": out["arg"]}] if "arg" in out else []
     if k == "task_site_str":
         return [{"op": "parse", "parser": "task", "s": case["s"]}]
     if k == "config_site":
@@ -603,8 +751,11 @@ def model_requests(case, out):
     if k == "transform_key":
         if case["spelling"] == "bad":
             return [{"op": "transform_key", "src": {"str": "map"}, "dst": {"str": "nope"}}]
-        return [{"op": "transform_key", "src": marg(FrameID[case["src"]], case["spelling"], 0),
-                 "dst": marg(FrameID[case["dst"]], case["spelling"], 1)}]
+        a, b = marg(FrameID[case["src"]], case["spelling"], 0), marg(FrameID[case["dst"]], case["spelling"], 1)
+        for x in (a, b):
+            if "member" in x:
+                x["enum"] = "FrameID"  # read by the value-level op only
+        return [{"op": "transform_key", "src": a, "dst": b}, {"op": "transform_key_v", "src": a, "dst": b}]
     return []
 
 
@@ -635,17 +786,28 @@ def compare(case, out, resps):
     if k == "task_list":
         if "err" in out:
             return f"impl raised {out['err']}, model {r}"
-        return None if out.get("members") == r.get("members") else f"impl {out.get('members')} != model {r.get('members')}"
+        if out.get("members") != r.get("members"):
+            return f"impl {out.get('members')} != model {r.get('members')}"
+        return None if out.get("rets") == resps[1].get("members") else f"by kind: impl {out.get('rets')} != model {resps[1].get('members')}"
     if k == "task_dict":
         if "err" in out:
             return f"impl raised {out['err']}, model {r}"
-        return None if out.get("items") == r.get("items") else f"impl {out.get('items')} != model {r.get('items')}"
+        if out.get("items") != r.get("items"):
+            return f"impl {out.get('items')} != model {r.get('items')}"
+        return None if out.get("rets") == resps[1].get("items") else f"by kind: impl {out.get('rets')} != model {resps[1].get('items')}"
+    if k in ("shape_init", "from_task"):
+        got = out.get("got") or {"err": out.get("err")}
+        return _ret_cmp(got.get("type", got), r, "Shape.type" if k == "shape_init" else "FrameID.from_task")
     if k in ("printed", "task_site_str"):
         if k == "task_site_str" and case["site"] == "frame_from_task":
             return None if ("err" in r) <= ("err" in out) else f"from_task({case['s']!r}) answered {out}, the model rejects the string"
         a = {x: out.get(x) for x in ("member", "err", "none") if x in out}
         b = {x: r.get(x) for x in ("member", "err", "none") if x in r}
-        return None if a == b else f"impl {a} != model {b}"
+        if a != b:
+            return f"impl {a} != model {b}"
+        if k == "printed" and len(resps) > 1:
+            return _ret_cmp(out.get("ret") or {"err": out.get("err")}, resps[1], "by kind")
+        return None
     if k == "config_site":
         want = _config_expect(case, resps)
         if want is None:
@@ -657,7 +819,10 @@ def compare(case, out, resps):
         b = {x: r.get(x) for x in ("member", "err", "none") if x in r}
         if "other" in out:
             return f"implementation returned a non-member {out['other']}, model {b}"
-        return None if a == b else f"impl {a} != model {b}"
+        if a != b:
+            return f"impl {a} != model {b}"
+        # the KIND of the returned object (member of which class / str / None) against the value-level model
+        return _ret_cmp(out.get("ret") or {"err": out.get("err")}, resps[1], "by kind") if len(resps) > 1 else None
     if k == "shape_arg":
         if "err" in out or "err" in r:
             return None if out.get("err") == r.get("err") else f"impl {out} != model {r}"
@@ -665,7 +830,18 @@ def compare(case, out, resps):
     if k == "transform_key":
         if "err" in out or "err" in r:
             return None if out.get("err") == r.get("err") else f"impl {out} != model {r}"
-        return None if (out.get("src"), out.get("dst")) == (r.get("src"), r.get("dst")) else f"impl {out} != model {r}"
+        if (out.get("src"), out.get("dst")) != (r.get("src"), r.get("dst")):
+            return f"impl {out} != model {r}"
+        if len(resps) > 1:
+            v = resps[1]
+            if "err" in v:
+                return f"impl {out} != value-level model {v}"
+            for side in ("src", "dst"):
+                for held in (out.get(side + "_ret"), out.get("h_" + side + "_ret")):
+                    d = _ret_cmp(held, v.get(side), f"TransformKey / HomogeneousMatrix .{side}")
+                    if d:
+                        return d
+        return None
     if k == "key_site":
         # the model knows how the key is read: the pair of members, or ValueError before anything is looked up
         if out.get("signature_unknown"):
@@ -677,6 +853,54 @@ def compare(case, out, resps):
         if out.get("src") is not None and (out.get("src"), out.get("dst")) != (r.get("src"), r.get("dst")):
             return f"{case['path']}: impl answered for {out.get('src')}->{out.get('dst')}, the key names {r.get('src')}->{r.get('dst')}"
         return None
+
+
+def _spelled_text(case):
+    e = _enums()["shape_type" if case["kind"] == "shape_init" else "task"][0]
+    m = e.__members__[case.get("member") or case.get("task")]
+    a = _spelled(m, case["spelling"])
+    return f"{type(m).__name__}.{m.name}" if a is m else repr(a)
+
+
+def _names_member(case):
+    e = _enums()["shape_type" if case["kind"] == "shape_init" else "task"][0]
+    a = _spelled(e.__members__[case.get("member") or case.get("task")], case["spelling"])
+    return isinstance(a, str) and any(a == m.value for m in e.__members__.values())
+
+
+def model_selftest(tier="quick"):
+    """NOT part of the check.  Drives the DEFECTIVE variants of the value-level model (F12 parsers, Shape of seed C20_G and on
+    the F12 parser, TransformKey of seeds C20_B / C20_J, from_task without the conversion) through the same comparison as the
+    real model and returns, per variant, how many cases the comparison rejects (each must be > 0: the correspondence tells a
+    member from its name string) -- and 0 for the model as it is."""
+    import random
+
+    import core
+
+    rng = random.Random(0)
+    cases = corpus() + generate(rng, tier)
+    outs = [run_impl(c) for c in cases]
+    report = {}
+    variants = {"": None, "F12": ("parse_v", "shape_init"), "G": ("shape_init",), "B": ("transform_key_v",), "J": ("transform_key_v",),
+                "noconv": ("frame_from_task",)}
+    for variant, ops in variants.items():
+        reqs, spans = [], []
+        for c, o in zip(cases, outs):
+            rs = [dict(r) for r in (model_requests(c, o) or [])]
+            for r in rs:
+                if ops and r["op"] in ops:
+                    r["variant"] = variant
+            spans.append((len(reqs), len(reqs) + len(rs)))
+            reqs.extend(rs)
+        resps = core.run_model(PROP, reqs)
+        bad = 0
+        first = None
+        for c, o, (a, b) in zip(cases, outs, spans):
+            if b > a and compare(c, o, resps[a:b]):
+                bad += 1
+                first = first or (c, compare(c, o, resps[a:b]))
+        report[variant or "model"] = {"rejected": bad, "first": first}
+    return report
 
 
 def _task_values():
@@ -812,6 +1036,29 @@ def oracle(case, out):
             if (parser == "frame" and s.lower() in byval) or (parser == "policy" and s.upper() in cls.__members__):
                 return None if out.get("member") or "err" in out else f"{parser}({s!r}) gave {out}"
         return None if "err" in out else f"{parser}({s!r}) is not a member value but was not rejected: {out}"
+    if k == "shape_init":
+        what = f"Shape({_spelled_text(case)}, size, footprint={case['footprint']})"
+        got, ref = out.get("got") or {"err": out.get("err")}, out.get("ref")
+        if case["spelling"] in ("str", "member"):
+            # both spellings behave identically, and what the object holds is the member
+            if not out.get("same"):
+                return f"{what} differs from the same call with the member: {got} vs {ref}"
+            if "type" in got and got["type"] != {"kind": "member", "enum": "ShapeType", "name": case["member"]}:
+                return f"{what}.type holds {got['type']}, not the member ShapeType.{case['member']}"
+            return None
+        if _names_member(case):
+            return None  # the altered spelling happens to be another member's value: judged by that member's own case
+        return None if "err" in got else f"{what}: a string that is no shape-type value was accepted: {got}"
+    if k == "from_task":
+        what = f"FrameID.from_task({_spelled_text(case)})"
+        got, ref = out.get("got") or {"err": out.get("err")}, out.get("ref")
+        if case["spelling"] in ("str", "member"):
+            if not out.get("same"):
+                return f"{what} differs from the same call with the member: {got} vs {ref}"
+            return None if "err" in got or (got.get("kind"), got.get("enum")) == ("member", "FrameID") else f"{what} returned {got}, no FrameID member"
+        if _names_member(case):
+            return None
+        return None if "err" in got else f"{what}: a string that is no task value was accepted: {got}"
     if k == "shape_arg":
         if case["spelling"] == "upper":
             return None if "err" in out else f"Shape({case['member']} upper-case) accepted: {out}"
@@ -842,6 +1089,10 @@ def branches(case, out):
         res = "err:" + ans["err"] if "err" in ans else "matrix" if "matrix" in ans else "key" if "key" in ans else "array" if "array" in ans else repr(ans.get("value"))
         return [f"key_site:{case['path']}:{case['spelling']}:{res}", f"key_site:form:{case['form']}"] + (
             [f"key_site:undriven:{case['path']}"] if out.get("signature_unknown") else [])
+    if k in ("shape_init", "from_task"):
+        got = out.get("got") or {"err": out.get("err")}
+        res = "err:" + str(got["err"]) if "err" in got else (got.get("type") or got).get("kind")
+        return [f"{k}:{case['spelling']}:{case.get('footprint', '-')}:{res}"]
     res = "err:" + out["err"] if "err" in out else "ok"
     if k in ("task_list", "task_dict"):
         byval = _task_values()
